@@ -103,6 +103,7 @@ type c13Result struct {
 
 func c13Exec(item *corpusItem, f func(ctx *plush.Context) (string, error)) (c13Result, observation) {
 	env := newRunEnv()
+	env.self = item.Src
 	for k, v := range item.Case.Parts {
 		env.parts[k] = decodeChars(v)
 	}
